@@ -811,3 +811,14 @@ M('c18g-step-marked-before-allocate', 'C18', 'break', 'htp/htp_decompressors.c',
 M('c18g-success-test-respelled-keep', 'C18', 'keep', 'htp/htp_decompressors.c',
   '                rc = LzmaDec_Allocate(&drec->state, drec->header, LZMA_PROPS_SIZE, &lzma_Alloc);\n                if (rc != SZ_OK)\n                    return rc;\n                LzmaDec_Init(&drec->state);',
   '                rc = LzmaDec_Allocate(&drec->state, drec->header, LZMA_PROPS_SIZE, &lzma_Alloc);\n                if (!(rc == SZ_OK)) {\n                    return rc;\n                }\n                LzmaDec_Init(&drec->state);')
+
+# ---------------- C09.i error discipline
+M('c09i-consolidate-status-dropped', 'C09', 'break', RQ,
+  '    if (htp_connp_req_consolidate_data(connp, &data, &len) != HTP_OK) {\n        return HTP_ERROR;\n    }\n\n    #ifdef HTP_DEBUG\n    fprint_raw_data(stderr, __func__, data, len);',
+  '    htp_connp_req_consolidate_data(connp, &data, &len);\n\n    #ifdef HTP_DEBUG\n    fprint_raw_data(stderr, __func__, data, len);', 'C09.i')
+M('c09i-status-stored-then-overwritten', 'C09', 'break', 'htp/htp_request_generic.c',
+  '        if (htp_table_add(connp->in_tx->request_headers, h->name, h) != HTP_OK) {',
+  '        htp_status_t rc2 = htp_table_add(connp->in_tx->request_headers, h->name, h);\n        rc2 = HTP_OK;\n        if (rc2 != HTP_OK) {', 'C09.i')
+M('c09i-status-through-local-keep', 'C09', 'keep', 'htp/htp_request_generic.c',
+  '        if (htp_table_add(connp->in_tx->request_headers, h->name, h) != HTP_OK) {',
+  '        htp_status_t rc2 = htp_table_add(connp->in_tx->request_headers, h->name, h);\n        if (rc2 != HTP_OK) {')
